@@ -22,7 +22,7 @@ RULE = ("small configurations (1..2 senders x 1..3 items via send or send_from, 
         "item, O2 every item whose send returned before close() was called is received exactly once (if a receiver keeps "
         "receiving), O3 per-sender order, O4 after close every receiver finishes (None / ChannelDone / end of iteration) "
         "within the idle-spin bound, O5 sends called after close raise ChannelClosed, O6 cancel / timeout surfaces as "
-        "CancelledError / TimeoutError and O1-O5 still hold. distinct = distinct event histories (hash of the event sequence).")
+        "CancelledError / TimeoutError and O1-O5 still hold. Director choices per step: which gated task next x {wait for quiescence, overlap with in-flight wake-ups, batch = release the next gate in the same loop iteration}; half of the configurations run FREE (a task is gated only before its first operation, then runs its loop like client code, so consecutive non-suspending operations are not separated); the channel is closed by close() or by send_from(close=True), built inside or before the loop; after every schedule late-comers (receive, async-for, send, send_from from a list and from an async source) probe the closed channel. Every capped DFS configuration also gets seeded random schedules. distinct = distinct event histories (hash of the event sequence).")
 ASSUMPTIONS = [
     "asyncio's stock event loop (FIFO ready queue); callbacks inside one loop iteration are not permuted against that rule",
     "liveness is restated as bounded progress: all receiver tasks done within the director's idle-spin bound after the last operation",
